@@ -94,16 +94,22 @@ def _run(ctx, rep):
                detail={'entry_point': meth, 'result': show(got) if is_term(got) else repr(got), 'specified': show(exp), 'via': I.calls_seen[-3:]})
 
     # free helpers
-    if 'generate_checksum' in f.bodies:
+    # the crate-private helper that computes a checksum byte of a whole slice (today `generate_checksum`).  Its name and
+    # home module are not part of the property: when no function of that name exists, the private free functions of
+    # shape fn(&[u8]) -> u8 are evaluated and those that compute the negated byte sum are recorded; the tables that
+    # use such a helper are decided through it by C01 (the helper is inlined there), so nothing is lost if there is none.
+    gc = [d for d in (['generate_checksum'] if 'generate_checksum' in f.bodies else
+                      sorted(d for d, b in f.bodies.items() if not b.get('self_ty') and not b.get('trait') and b.get('kind') == 'Fn' and b.get('body') is not None
+                             and [norm_ty(t) for _, t in params_of(b)] in (['&[u8]'], ["&'_ [u8]"]) and norm_ty(b.get('ret') or b.get('ret_ty') or 'u8') == 'u8'))]
+    for d in gc:
         I = new_interp(f, abstract=())
-        r = run_fn(I, 'generate_checksum', [data(I)])
-        rep.analysed.add('generate_checksum')
+        r = run_fn(I, d, [data(I)])
         exp = wrap(neg(Sdata), 256)
         ok = is_term(r) and not I.tops and equal(r, exp)[0]
-        rep.ob('Z256-map', 'generate_checksum', ok, 'generate_checksum(data) is %s, specified %s' % (show(r) if is_term(r) else r, show(exp)),
-               sp=f.bodies['generate_checksum']['sp'], detail={'result': show(r) if is_term(r) else repr(r), 'specified': show(exp)})
-    else:
-        rep.ob('anchor', 'generate_checksum', False, 'function generate_checksum not found')
+        if d != 'generate_checksum' and not ok: continue        # some other helper over bytes (a plain sum, ...)
+        rep.analysed.add(d)
+        rep.ob('Z256-map', d, ok, '%s(data) is %s, specified %s' % (d, show(r) if is_term(r) else r, show(exp)),
+               sp=f.bodies[d]['sp'], detail={'result': show(r) if is_term(r) else repr(r), 'specified': show(exp)})
     if 'u8sum' in f.bodies:
         I = new_interp(f, abstract=())
         obj = DynV(('a', 'obj'))
